@@ -208,3 +208,48 @@ Example cyc_chain_fuel :
   delete_by_id cyc_schema (mkOctx false []) 3 (cyc_st, []) n_n [49] = Err EOutOfFuel /\
   delete_by_id cyc_schema (mkOctx false []) 4 (cyc_st, []) n_n [49] = delete_by_id cyc_schema (mkOctx false []) 40 (cyc_st, []) n_n [49].
 Proof. vm_compute. split; reflexivity. Qed.
+
+(* ---- re-use of a target id inside one transaction (one mutate context): reference / release / delete /
+        reference again.  The machine consults the state at every step, so the last reference is refused and the
+        transaction rolls back; after a re-create the reference is accepted.  (The real code must agree whatever it
+        remembers per mutate context: harness stream store_c04_reuse.go.) ---- *)
+Definition fkc_reuse_prefix : list tx :=
+  [ mkTx false [] [OCreate n_dept [100] false [(n_title, Some [116])] []; OCreate n_room [114] false [(n_label, None)] []] false ].
+Definition fkc_reuse_st : state := run_txs fkc_schema 8 st_empty fkc_reuse_prefix.
+
+(* restrict edge emp.room -> room: e1 references r, e1 is deleted, r is deleted, e2 references r: NotFound, rollback *)
+Example fkc_reuse_after_delete_refused :
+  match run_tx fkc_schema 8 fkc_reuse_st
+          (mkTx false [] [mk_e [101;49] [49] None [100] (Some [114]); ODelete n_emp [101;49]; ODelete n_room [114];
+                          mk_e [101;50] [50] None [100] (Some [114])] false) with
+  | (rs, committed, st', _) => rs = [None; None; None; Some ENotFound] /\ committed = false /\ st' = fkc_reuse_st
+  end.
+Proof. vm_compute. repeat split; reflexivity. Qed.
+
+(* the same with the reference released by nulling the field (field-restricted update) instead of deleting the referrer *)
+Example fkc_reuse_after_release_by_update_refused :
+  match run_tx fkc_schema 8 fkc_reuse_st
+          (mkTx false [] [mk_e [101;49] [49] None [100] (Some [114]);
+                          OUpdate n_emp [101;49] [(n_name, Some [49]); (n_boss, None); (n_dept, Some [100]); (n_room, None)] [] (Some [n_room]);
+                          ODelete n_room [114];
+                          OUpdate n_emp [101;49] [(n_name, Some [49]); (n_boss, None); (n_dept, Some [100]); (n_room, Some [114])] [] (Some [n_room])] false) with
+  | (rs, committed, _, _) => rs = [None; None; None; Some ENotFound] /\ committed = false
+  end.
+Proof. vm_compute. repeat split; reflexivity. Qed.
+
+(* cascade edge emp.dept -> dept: the delete of the department removes e1; a new employee of the deleted department
+   is refused; after re-creating the department it is accepted and the transaction commits *)
+Example fkc_reuse_after_cascade_refused :
+  match run_tx fkc_schema 8 fkc_reuse_st
+          (mkTx false [] [mk_e [101;49] [49] None [100] None; ODelete n_dept [100]; mk_e [101;50] [50] None [100] None] false) with
+  | (rs, committed, _, _) => rs = [None; None; Some ENotFound] /\ committed = false
+  end.
+Proof. vm_compute. repeat split; reflexivity. Qed.
+
+Example fkc_reuse_after_recreate_accepted :
+  match run_tx fkc_schema 8 fkc_reuse_st
+          (mkTx false [] [mk_e [101;49] [49] None [100] None; ODelete n_dept [100];
+                          OCreate n_dept [100] false [(n_title, Some [117])] []; mk_e [101;50] [50] None [100] None] false) with
+  | (rs, committed, st', _) => rs = [None; None; None; None] /\ committed = true /\ ids_of st' n_emp = [[101;50]] /\ ids_of st' n_dept = [[100]]
+  end.
+Proof. vm_compute. repeat split; reflexivity. Qed.
